@@ -411,6 +411,14 @@ let c10_case line_in obs_s =
   if not (check_rc_f32 fq f1) then pf "frequency-rc-not-reversal+complement";
   if not (fm_same f2 fq) then pf "frequency-rc-twice-not-identity";
   if not (fm_same (rc_f32 fq) f1) then df "frequency-rc-model";
+  (* the relative tolerances of the commutation checks presuppose normal numbers: a
+     subnormal frequency (smallest-normal / denormal pseudocount over a large total) has
+     fewer significant bits, and the two roundings of x/s and x/s' may fall on adjacent
+     subnormals; such cases are left to the bit-exact comparison with the model *)
+  let normal_or_zero x =
+    is_zero x || (let v = Float.abs (ocaml_float (bf x)) in Float.is_nan v || v >= 1.17549435e-38) in
+  let wellcond = List.for_all (List.for_all normal_or_zero) fq && List.for_all (List.for_all normal_or_zero) fc in
+  let ps_sym = ps_sym && wellcond in
   if ps_sym && not (fm_close zero_q rel_c f1 fc) then pf "rc-does-not-commute-with-to_freq";
   same_fm "fc" (to_freq ops pseudo c1) fc;
   (* weights *)
